@@ -211,5 +211,7 @@ pub fn write_tree(dir: &Path, files: &BTreeMap<String, String>) -> std::io::Resu
         if let Some(parent) = p.parent() { std::fs::create_dir_all(parent)?; }
         std::fs::write(p, text)?;
     }
+    // a design without axes is a lone UFO (norad rejects a designspace location without dimensions)
+    if files.contains_key("font.designspace") && !files["font.designspace"].contains("<axis ") { return Ok(dir.join("M0.ufo")); }
     Ok(dir.join("font.designspace"))
 }
